@@ -171,10 +171,11 @@ def run(cfg: Cfg, debug: bool = False, sync: bool = True, with_inherited_coords:
     kw = {}
     if override_dct is not None:
         kw["override_dct"] = override_dct
-    with open(os.devnull, "w") as devnull, contextlib.redirect_stderr(devnull):
-        with scheduler(sched if sched is not None else ("synchronous" if sync else None), workers):
-            result = pyxel.run_mode(mode=cfg.mode, detector=cfg.detector, pipeline=cfg.pipeline, debug=debug,
-                                    with_inherited_coords=with_inherited_coords, **kw)
-            if compute and getattr(cfg.mode, "with_dask", False):
-                result = result.compute()
+    # progress bars are silenced through TQDM_DISABLE (set by the runner): no process-global stream redirection here,
+    # checks call this function from several threads
+    with scheduler(sched if sched is not None else ("synchronous" if sync else None), workers):
+        result = pyxel.run_mode(mode=cfg.mode, detector=cfg.detector, pipeline=cfg.pipeline, debug=debug,
+                                with_inherited_coords=with_inherited_coords, **kw)
+        if compute and getattr(cfg.mode, "with_dask", False):
+            result = result.compute()
     return result
